@@ -658,7 +658,8 @@ func TestConfidentialBinding(t *testing.T) {
 			t.Skip("victim itself is not valid: " + err.Error()) // e.g. generated off-unit amounts
 		}
 		m := freshU(victim)
-		ops := []string{"fee-up", "fee-down", "extra", "rkey", "addkeys", "token", "out-otaddr", "out-remark", "aout-to", "aout-amount", "in-keyoffset", "in-keyimage", "acct-sig", "ain-nonce"}
+		ops := []string{"fee-up", "fee-down", "extra", "rkey", "addkeys", "token", "out-otaddr", "out-remark", "aout-to", "aout-amount", "in-keyoffset", "in-keyimage", "acct-sig", "ain-nonce",
+			"sig-drop-last", "sig-drop-last", "sig-drop-all", "sig-flip", "sig-swap", "sig-dup-first"}
 		op := rapid.SampledFrom(ops).Draw(t, "mop")
 		applied := false
 		attackerKey := lktypes.Key(world.NewWallet(777, 0).Keys.Addr.SpendPublicKey)
@@ -727,6 +728,58 @@ func TestConfidentialBinding(t *testing.T) {
 					}
 				}
 			}
+		case "sig-drop-last", "sig-drop-all", "sig-flip", "sig-swap", "sig-dup-first":
+			// the spend authorisations themselves: one ring signature per input (ring size 1: P.Ss) resp. one MLSAG per input (P.MGs).
+			// They are not part of the transaction hash, so the mutant keeps the victim's hash.
+			// (Both arrays have one slot per input, the one the ring size does not use holds placeholders: only the used one is touched.)
+			p := &m.RCTSig.P
+			short := ringOf(victim) == 1
+			n := len(p.MGs)
+			if short {
+				n = len(p.Ss)
+			}
+			switch {
+			case n == 0:
+			case op == "sig-drop-last":
+				if short {
+					p.Ss = p.Ss[:len(p.Ss)-1]
+				} else {
+					p.MGs = p.MGs[:len(p.MGs)-1]
+				}
+				applied = true
+			case op == "sig-drop-all":
+				p.Ss, p.MGs = nil, nil
+				applied = true
+			case op == "sig-flip":
+				i := rapid.IntRange(0, n-1).Draw(t, "sigidx")
+				b := rapid.IntRange(0, 31).Draw(t, "sigbyte")
+				if short {
+					if rapid.Bool().Draw(t, "sigpart") {
+						p.Ss[i].C[b] ^= 1
+					} else {
+						p.Ss[i].R[b] ^= 1
+					}
+				} else if rapid.Bool().Draw(t, "sigpart") || len(p.MGs[i].Ss) == 0 || len(p.MGs[i].Ss[0]) == 0 {
+					p.MGs[i].Cc[b] ^= 1
+				} else {
+					p.MGs[i].Ss[0][0][b] ^= 1
+				}
+				applied = true
+			case n >= 2 && op == "sig-swap":
+				if short {
+					p.Ss[0], p.Ss[1] = p.Ss[1], p.Ss[0]
+				} else {
+					p.MGs[0], p.MGs[1] = p.MGs[1], p.MGs[0]
+				}
+				applied = true
+			case n >= 2 && op == "sig-dup-first":
+				if short {
+					p.Ss[n-1] = p.Ss[0]
+				} else {
+					p.MGs[n-1] = p.MGs[0]
+				}
+				applied = true
+			}
 		case "acct-sig", "ain-nonce":
 			for _, in := range m.Inputs {
 				if ai, ok := in.(*types.AccountInput); ok && !applied {
@@ -744,7 +797,9 @@ func TestConfidentialBinding(t *testing.T) {
 			t.Skip("mutation not applicable to this transaction shape")
 		}
 		m = freshU(m)
-		if m.Hash() == victim.Hash() {
+		mb, _ := ser.EncodeToBytes(m)
+		vb, _ := ser.EncodeToBytes(freshU(victim))
+		if bytes.Equal(mb, vb) {
 			t.Skip("mutation left the transaction unchanged")
 		}
 		label := fmt.Sprintf("%s|spend=%v|ring=%d", op, isSpend, ringOf(victim))
